@@ -96,7 +96,10 @@ def gen(rng, i, tier):
     chart = []
     if ck == "SSC":
         for key in TKEYS:
-            st = rng.choice(["absent"] * 4 + ["empty", "value"])
+            st = rng.choice(["absent"] * 4 + ["empty", "value", "blank"])
+            if st == "blank":                    # white space only: not empty, so it still makes the chart its own timing source
+                chart.append([key, rng.choice([" ", "\n", " \n "])])
+                continue
             if st != "absent":
                 val = NONEMPTY[key]
                 if key == "BPMS" and rng.random() < 0.3:
